@@ -45,6 +45,7 @@ const SIG_SQRT: &str = "C24/proxy/values/sqrt-not-correctly-rounded";
 const SIG_FLATTEN: &str = "C24/proxy/values/flatten-only-one-level";
 const SIG_NEG_ZERO_TEXT: &str = "C24/proxy/values/negative-zero-sign-lost-in-text";
 const SIG_TONUMBER_BLANK: &str = "C24/proxy/message/tonumber-of-blank-string";
+const SIG_REDUCE_EAGER_SOURCE: &str = "C24/proxy/message/reduce-source-evaluated-before-body";
 
 /// "-0" tokens (not part of a longer number) spelled as "0".
 fn norm_neg_zero(s: &str) -> String {
@@ -1217,6 +1218,12 @@ fn compare_docs(c: &ProxyCase, env: &ProxyEnv, a: &[DocRes], b: &[DocRes], docs:
                     if comparable {
                         st.class("message-compared");
                         if x != y {
+                            // reduce/foreach: the whole source generator is evaluated before the
+                            // first iteration of the body, so an error raised by a later source
+                            // element pre-empts the error jq raises in the body of an earlier one
+                            if (c.program.contains("reduce ") || c.program.contains("foreach ")) && template(x) != template(y) {
+                                fail!(SIG_REDUCE_EAGER_SOURCE, {"case": case()});
+                            }
                             // `tonumber` on a white-space-only string: jq's JSON parser sees no value
                             if x.starts_with("Expected JSON value (while parsing '") && y.starts_with("Invalid numeric literal at EOF") && c.program.contains("tonumber") {
                                 let inner = &x["Expected JSON value (while parsing '".len()..x.len().saturating_sub(2)];
@@ -1570,7 +1577,7 @@ pub fn run(cx: &mut Ctx) {
     // 4. (b) proxy differential on the version-stable core
     if have16 && want_proxy {
         let envr = &env;
-        cx.check("proxy", "typed core-fragment program x 1..6 same-shape documents, succinctly vs jq 1.6 (values, error-or-not, exit status, stable message families)", Budget { quick: 6000, thorough: 200_000, max_len: 512 }, |u, st| {
+        cx.check("proxy", "typed core-fragment program x 1..6 same-shape documents, succinctly vs jq 1.6 (values, error-or-not, exit status, stable message families)", Budget { quick: 3000, thorough: 200_000, max_len: 512 }, |u, st| {
             let c = gen_proxy(u);
             st.class(if c.raw || c.docs.len() == 1 { "mode:raw" } else { "mode:batch" });
             for o in &c.ops {
